@@ -34,6 +34,8 @@ try:
             elif mode == 'wire':       # demo module under demo/, wired in by a patch to src/main.rs
                 sh('mkdir -p demo && cp %s demo/' % demo, cwd=WT)
                 rc_, out_ = sh('git apply %s' % os.environ['DEMO_WIRE'], cwd=WT); assert rc_ == 0, out_
+            elif mode == 'patch':      # the demo is itself a patch (appends a #[cfg(test)] module)
+                rc_, out_ = sh('git apply %s' % demo, cwd=WT); assert rc_ == 0, out_
             elif mode == 'modfile':    # demo copied to src/<name>.rs and declared in main.rs
                 name = os.environ['DEMO_MOD']
                 sh('cp %s src/%s.rs && echo "#[cfg(test)] mod %s;" >> src/main.rs' % (demo, name, name), cwd=WT)
@@ -66,7 +68,7 @@ d = '/verif/seeded/' + sid
 os.makedirs(d, exist_ok=True)
 shutil.copy(patch, d + '/patch.diff')
 if demo != '-':
-    shutil.copy(demo, d + '/demo.rs')
+    shutil.copy(demo, d + ('/demo.diff' if demo.endswith('.diff') else '/demo.rs'))
 old = {}
 if os.path.exists(d + '/meta.json'):
     old = json.load(open(d + '/meta.json'))
